@@ -20,7 +20,8 @@ RULE = ("a case is a namespace tree on disk (3-12 definitions in 1-3 root direct
         "root / missing versions / a namespace component that equals or starts with the short name of a definition inside it, with "
         "relative references at several depths and optionally a same-named definition in the namespace obtained by deleting "
         "that component / two names equal up to case in different versions referenced with all (spelling, version) combinations / a self "
-        "reference or 2-/3-cycle through a definition that has a twin in a same-named second root directory) plus read_namespace and read_files calls for several target subsets, and one read_files "
+        "reference or 2-/3-cycle through a definition that has a twin in a same-named second root directory / versions >= 10 and "
+        "unreferenced versions whose decimal digits concatenate like a referenced one (11.0 / 1.10)) plus read_namespace and read_files calls for several target subsets, and one read_files "
         "call per definition on its own; non-trivial = at least one call returns a type with a nested composite or fails in "
         "resolution; distinct = by hash of the canonical case")
 THEOREMS_NOTE = ("C09_resolve_exact / C09_resolve_never_other / C09_errors fix the outcome of a resolution, C09_terminates / C09_cycles / "
@@ -45,6 +46,10 @@ ROOT_NAMES = ["ra", "rb", "Rc", "zed"]
 SUBS = ["s", "t", "Uv", "uv"]
 SHORTS = ["A", "B", "C", "D", "E", "F", "G", "H", "K", "M", "P", "Q", "Xy", "xY", "xy", "Za", "zA", "b", "k"]
 BASES = ["a", "b", "c"]
+BIG_VERSIONS = [0, 1, 2, 3, 9, 10, 11, 12, 23, 110, 255]
+# versions whose decimal digits concatenate equally: (referenced, look-alike)
+DIGIT_TWINS = [((11, 0), (1, 10)), ((1, 10), (11, 0)), ((12, 3), (1, 23)), ((1, 23), (12, 3)), ((1, 12), (11, 2)), ((25, 5), (2, 55)),
+               ((1, 110), (11, 10)), ((10, 1), (1, 1)), ((2, 10), (21, 0)), ((110, 0), (11, 0))]
 
 
 def basename(f):
@@ -191,8 +196,13 @@ def run_query(base, case, q, idmap, variant=None, err_detail=False):
 
     how_t = (variant or {}).get("how_targets", how)      # the target files may be spelled differently from the directories
 
+    bare = (variant or {}).get("bare")     # a root directory passed as a bare relative name, with its parent as working directory
+
     def sp(comps, h=None):
-        s = spell(base, comps, h or how, links)
+        if bare is not None and list(comps) == list(bare):
+            s = comps[-1]
+        else:
+            s = spell(base, comps, h or how, links)
         return Path(s) if (variant or {}).get("as_path") else s
 
     def args(dirs):
@@ -214,7 +224,10 @@ def run_query(base, case, q, idmap, variant=None, err_detail=False):
             who = -2
         deliv.append([idmap.get(os.path.realpath(str(path)), -1), who, int(line)])
 
+    cwd0 = os.getcwd()
     try:
+        if bare is not None:
+            os.chdir(os.path.join(base, *bare[:-1]))
         if q["k"] == "ns":
             res = pydsdl.read_namespace(sp(q["root"]), args(q["lookups"]), handler, allow_unregulated_fixed_port_id=True,
                                         allow_root_namespace_name_collision=bool(q["allow"]))
@@ -238,6 +251,7 @@ def run_query(base, case, q, idmap, variant=None, err_detail=False):
             ob["deliv"] = deliv
             ob["opened"] = sorted(set(idmap.get(p, -1) for p in _STATE["opened"]))
     finally:
+        os.chdir(cwd0)
         _STATE["opened"] = None
         for ln in links:
             try:
@@ -344,6 +358,9 @@ def gen_defs(rng, roots, n, opts):
             d, short = root + subs, rng.choice(SHORTS if opts.get("case_names") else SHORTS[:12])
         maj = rng.choice([0, 1, 1, 2])
         mnr = rng.choice([0, 0, 1, 2])
+        if rng.random() < opts.get("bigver_p", 0.08):
+            maj = rng.choice(BIG_VERSIONS)
+            mnr = rng.choice(BIG_VERSIONS)
         if maj == 0 and mnr == 0:
             mnr = 1                                                 # version 0.0 is not a valid version
         key = (tuple(d), short, maj, mnr)
@@ -425,7 +442,7 @@ def all_dirs_queries(rng, roots, defs, extra_lookups=None):
 
 
 def gen_case(rng, tier, flavor=None):
-    flavor = flavor or rng.choice(["plain", "plain", "plain", "plain", "cycle", "case", "dup_root", "wrongcase", "self", "twins", "f7", "nsprefix", "nsprefix", "casever", "casever", "dupcycle", "dupcycle"])
+    flavor = flavor or rng.choice(["plain", "plain", "plain", "plain", "cycle", "case", "dup_root", "wrongcase", "self", "twins", "f7", "nsprefix", "nsprefix", "casever", "casever", "dupcycle", "dupcycle", "digits"])
     opts = {"print_p": 0.15, "missing_p": 0.015, "badrel_p": 0.015, "fault_p": 0.01}
     if flavor == "cycle":
         opts["cycle_p"] = 0.25
@@ -473,6 +490,8 @@ def gen_case(rng, tier, flavor=None):
         add_casever(rng, roots[0], defs)
     if flavor == "dupcycle":
         add_dupcycle(rng, roots, defs)
+    if flavor == "digits":
+        add_digits(rng, roots, defs)
     qs = all_dirs_queries(rng, roots, defs)
     return {"files": defs, "queries": qs, "flavor": flavor, "dirs": roots}
 
@@ -526,6 +545,26 @@ def add_dupcycle(rng, roots, defs, kind=None, sub=None, twin_body=None, link_in_
     if rng.random() < 0.5:
         # somebody who merely uses Node: ambiguous while both directories are looked up
         defs.append(mkfile(n, r0 + sub, "User", 1, 0, [["ref", rel("Node"), 1, 0, 0]]))
+
+
+def add_digits(rng, roots, defs, pair=None, both=None, where=None):
+    """A referenced version T.M.m and another version of the same type whose decimal digits alias (11.0 / 1.10, 12.3 / 1.23):
+    the look-alike is referenced by nobody (outside every closure that does not contain it) and must never be a candidate."""
+    want, alias = pair or rng.choice(DIGIT_TWINS)
+    r = where or rng.choice(roots)
+    d = r + [rng.choice(SUBS[:2]) for _ in range(rng.choice([0, 0, 1]))]
+    ns_name = ".".join([r[-1]] + d[len(r):])
+    i = len(defs)
+    both = (rng.random() < 0.7) if both is None else both
+    n = i
+    if both:
+        defs.append(mkfile(n, d, "Foo", want[0], want[1], [["plain", 8]]))
+        n += 1
+    defs.append(mkfile(n, d, "Foo", alias[0], alias[1], [["plain", 16]]))
+    n += 1
+    name = "Foo" if rng.random() < 0.4 else ns_name + "." + "Foo"
+    ud = d if name == "Foo" else rng.choice(roots) + [rng.choice(SUBS[:2]) for _ in range(rng.choice([0, 1]))]
+    defs.append(mkfile(n, ud, "UsesFoo", 1, 0, [["ref", name, want[0], want[1], rng.choice([0, 0, 2])], ["plain", 8]]))
 
 
 def add_casever(rng, root, defs, names=None, vers=None):
@@ -636,6 +675,12 @@ def corpus():
             for v in vers:
                 fs.append(mkfile(k, ns, "R%d" % k, 1, 0, [["ref", nm if k % 2 else "ns." + nm, v[0], v[1], 0]]))
                 k += 1
+        out.append(mk(fs))
+    # versions whose digits concatenate equally: 11.0 is referenced, 1.10 merely exists (and the other way round; alone)
+    import random as _random2
+    for pair, both in [(((11, 0), (1, 10)), True), (((1, 10), (11, 0)), True), (((12, 3), (1, 23)), True), (((11, 0), (1, 10)), False)]:
+        fs = []
+        add_digits(_random2.Random(5), [ns], fs, pair=pair, both=both, where=ns)
         out.append(mk(fs))
     # self reference / cycles through a definition that has a twin in a same-named second root directory
     import random as _random
